@@ -52,6 +52,15 @@ CLAIMED.update({
    note="As C03.", design_ref="§4 C18"),
 })
 
+CLAIMED.update({
+ "C10": dict(engine="E1", technique=_E1 + "; the real NamespaceManager/DefaultNamespace/EdifNamespace interpreted as registered listeners",
+   text="Inductive, bounded: for every public mutator from ANY state satisfying Inv and I4 (the plug-in's tables hold exactly the current children per scope and key; identifiers legal; tags uniform), under the DEFAULT and the EDIF policy, names over a colliding alphabet, z3 shows I4 holds again whether the call returned or was refused. Table exactness gives sibling uniqueness, no refusal because of removed/renamed elements, and lookup == scan.",
+   note="Only the manager's nested dictionaries are modelled (heap-resident tables); its code is the real source. Outside: mixed-policy states, .NS changes, clones (C07), weak-reference reclamation.", design_ref="§4 C10"),
+ "C07": dict(engine="E1", technique=_E1.replace("one inductive step per public mutator", "clone() of every root class") + "; copy correspondence checked as an existential witness",
+   text="Bounded: clone() of every class of root executed symbolically from an arbitrary invariant state; z3 shows the copy corresponds position-wise to exactly the elements inside the root (structure, attributes, data, connections, outer pins), consists of new objects of the public classes, is detached, leaves the source unchanged up to the documented reference-set bookkeeping, shares nothing with the original for whole-netlist clones, and the whole heap is well-formed afterwards.",
+   note="Library/Netlist roots: containment shape concrete per listed shape (cube split), links symbolic. List aliasing between heap fields is modelled. Outside: non-atom user data, unlisted shapes.", design_ref="§4 C07"),
+})
+
 NA_REASON = "check not built yet in this round (see DESIGN.md §7 build order); no claim is made"
 
 def main():
